@@ -9,7 +9,7 @@ ID = 'C17'
 LEVEL = 'fault_enumeration'
 RULE = ('fault enumeration: every fault class of the statement injected at every applicable card of valid base '
         'decks: m=-1 on TR / inline TRCL / inline FILL (plain and starred); LAT cell without --lattice, with '
-        '--lattice for another cell, with too few / too many / misplaced non-trivial ranges; every elementary '
+        '--lattice for another cell (also: only for the cell a LIKE n BUT lattice was copied from, or only for the copy), with too few / too many / misplaced non-trivial ranges; every elementary '
         'mnemonic and every macrobody with one parameter too few and one too many; unknown mnemonic; facet '
         'index 0 and n+1 for every macrobody kind; FILL array one short and one long; IMP cards of unequal '
         'length; mixed-sign fractions at each position; malformed --lattice strings; oracle: the entry point '
@@ -181,7 +181,8 @@ def b_lattice(ch):
     dims = ch.choose('dims', [2, 1, 3], free=True)
     fault = ch.choose('fault', ['none-array', 'none-option', 'no-option', 'option-other-cell', 'too-few-ranges',
                                 'too-many-ranges', 'misplaced-range', 'array-short', 'array-long', 'array-long-tr',
-                                'option-too-many', 'option-too-few', 'option-misplaced'], free=True)
+                                'option-too-many', 'option-too-few', 'option-misplaced',
+                                'none-like-both-options', 'like-no-option', 'like-option-only-for-copy'], free=True)
     full = {1: '0:1', 2: '0:1 0:1', 3: '0:1 0:1 0:1'}[dims]
     n = 2 ** dims
     opts = []
@@ -191,6 +192,13 @@ def b_lattice(ch):
         spec = 'fill=3'; opts = ['--lattice', '20,' + full.replace(' ', ',')]
     elif fault == 'no-option':
         spec = 'fill=3'
+    elif fault in ('none-like-both-options', 'like-no-option', 'like-option-only-for-copy'):
+        # a second lattice written as LIKE 20 BUT U=4: each lattice cell needs its own --lattice ranges
+        spec = 'fill=3'
+        if fault != 'like-option-only-for-copy':
+            opts += ['--lattice', '20,' + full.replace(' ', ',')]
+        if fault != 'like-no-option':
+            opts += ['--lattice', '21,' + full.replace(' ', ',')]
     elif fault == 'option-other-cell':
         spec = 'fill=3'; opts = ['--lattice', '21,' + full.replace(' ', ',')]
     elif fault == 'too-few-ranges':
@@ -230,6 +238,10 @@ def b_lattice(ch):
         rr.append('0:1')
         spec = 'fill=3'; opts = ['--lattice', '20,' + ','.join(rr)]
     st = lattice_deck(dims, spec)
+    if 'like' in fault:
+        st.cells[1] = '2 0 1 5 imp:n=0'
+        st.cells += ['5 0 -5 fill=4 imp:n=1', '21 like 20 but u=4']
+        st.surfs.append('5 s 30 0 0 9')
     if fault == 'array-long-tr':
         # a TR card whose number equals the surplus array entry exists
         st.data.append('tr3 0.5 0 0')
